@@ -581,7 +581,8 @@ def rulePODDate(ts: datetime, pod: Time, d: Time) -> Time:
 
 
 @rule(
-    r"((?P<not>not |nicht )?(vor|before))|(bis )?spätestens( bis)?|bis|latest",
+    # "vor" is not the preposition when it starts the word "vormittag(s)"
+    r"((?P<not>not |nicht )?(vor(?!mittag)|before))|(bis )?spätestens( bis)?|bis|latest",
     dimension(Time),
 )
 def ruleBeforeTime(ts: datetime, r: RegexMatch, t: Time) -> Interval:
